@@ -1,12 +1,12 @@
 #!/bin/bash
 # tools/verify_seed.sh <seed-dir-with-patch.diff-and-demo>  — confirms a seeded change in a scratch worktree:
 # (1) demo passes on the clean tree, (2) patch applies and compiles, (3) the repo's own suite still passes with it,
-# (4) the demo fails with it. Prints a summary line; removes the worktree (keeps /tmp/seedv-target for speed).
+# (4) the demo fails with it. Prints a summary line; removes the worktree (keeps /tmp/seedv${SEEDV_ID:-}-target for speed).
 set -u
-D="$1"; WT=/tmp/seedv-wt; unset CARGO_TARGET_DIR; mkdir -p /tmp/seedv-target
+D="$1"; WT=/tmp/seedv${SEEDV_ID:-}-wt; unset CARGO_TARGET_DIR; mkdir -p /tmp/seedv${SEEDV_ID:-}-target
 git -C /repo worktree remove --force $WT >/dev/null 2>&1; rm -rf $WT
 git -C /repo worktree add -q --detach $WT HEAD || exit 2
-ln -s /tmp/seedv-target $WT/target
+ln -s /tmp/seedv${SEEDV_ID:-}-target $WT/target
 cd $WT
 demo_rs=$(ls "$D"/*.rs 2>/dev/null | head -1); demo_sh=$(ls "$D"/*.sh 2>/dev/null | head -1)
 run_demo() {
@@ -16,7 +16,7 @@ run_demo() {
     ( cd $WT && cargo test --offline -p $crate --test zz_seed_demo 2>&1 | grep -E "^test result|error(\[|:)" | head -3 )
     rm -f $crate/tests/zz_seed_demo.rs
   else
-    ( cd $WT && cargo build --offline 2>&1 | grep -E "^error" | head -3; A1="$WT"; grep -Eq 'SLICEC="?\$\{1' "$demo_sh" && A1="$WT/target/debug/slicec"; SLICEC=$WT/target/debug/slicec WT=$WT bash "$demo_sh" "$A1" >/tmp/seedv-demo.out 2>&1; echo "demo.sh exit=$?"; tail -2 /tmp/seedv-demo.out | cut -c1-160 )
+    ( cd $WT && cargo build --offline 2>&1 | grep -E "^error" | head -3; A1="$WT"; grep -Eq 'SLICEC="?\$\{1' "$demo_sh" && A1="$WT/target/debug/slicec"; SLICEC=$WT/target/debug/slicec WT=$WT bash "$demo_sh" "$A1" >/tmp/seedv${SEEDV_ID:-}-demo.out 2>&1; echo "demo.sh exit=$?"; tail -2 /tmp/seedv${SEEDV_ID:-}-demo.out | cut -c1-160 )
   fi
 }
 echo "--- demo on clean tree:"; CLEAN=$(run_demo); echo "$CLEAN"
